@@ -7,8 +7,8 @@
    safe         = Spec/C11safe.v : the domain of the proof; its conjuncts are refuted one by one below
    split_string / quote_join = Model/C11sh.v : shlex.split / shlex.join                              *)
 From Coq Require Import Ascii String Bool List.
-From CBI Require Import Lib.C11_types Gen.C11_tables Model.C11 Model.C11sh Spec.C11 Spec.C11safe Spec.C11safe_more
-                        Proofs.C11 Proofs.C11exit Proofs.C11sh.
+From CBI Require Import Lib.Data Lib.C11_types Gen.C11_tables Model.C11 Model.C11sh Spec.C11 Spec.C11safe Spec.C11safe_more Spec.C11sh
+                        Proofs.C11 Proofs.C11exit Proofs.C11sh Proofs.C11shr.
 Import ListNotations.
 Local Open Scope string_scope.
 
@@ -124,12 +124,30 @@ Theorem C11_shlex_roundtrip : forall argv : list string, split_string (quote_joi
 Proof. exact split_quote_join. Qed.
 Print Assumptions C11_shlex_roundtrip.
 
+(* ... and not only for strings produced by shlex.join: EVERY POSIX-shell rendering of an argument vector (Spec/C11sh.v:
+   words written as any mixture of plain characters, backslash escapes, single-quoted and double-quoted runs, separated
+   by any non-empty white space, with optional leading and trailing white space) is read back as that vector *)
+Theorem C11_shlex_any_rendering : forall (l : list (list seg * word)) (sep0 : word),
+  cmd_ok l = true -> forallb is_ws sep0 = true ->
+  split (List.app sep0 (render_cmd l)) = inr (map (fun ws => value_word (fst ws)) l).
+Proof. exact split_render. Qed.
+Print Assumptions C11_shlex_any_rendering.
+
 (* non-vacuity: a safe vector with both spellings of all four options, values with '=', quotes and blanks,
    and a dozen catalogue options around them; an insertion point; the command string form *)
 Definition C11_example : list string :=
   ["-O2"; "-g3"; "-DX"; "-D"; "FOO=""a b"""; "-ccbin"; "g++"; "-Iinc"; "-I"; "../x y"; "-MF"; "x.d";
    "-isystem"; "/opt/sys"; "-std=c++17"; "-include"; "pre fix.h"; "-Wl,-rpath=/x"; "-fopenmp=libomp";
    "-c"; "a.c"; "-o"; "a.o"; "-O"; "-Xlinker"; "--no-undefined"].
+(* gcc -DMSG=\"a b\" "-I../x y" '-include' pre\ fix.h   (CMake / bear style quoting) *)
+Definition C11_example_rendering : list (list seg * word) :=
+  let sp := [" "%char] in
+  let plain (s : string) := map SP (list_of_string s) in
+  [ (plain "gcc", sp);
+    (List.app (plain "-DMSG=") (SE """"%char :: List.app (plain "a") (SE " "%char :: List.app (plain "b") [SE """"%char])), sp);
+    ([SD (map DP (list_of_string "-I../x y"))], [" "%char; " "%char]);
+    ([SS (list_of_string "-include")], sp);
+    (List.app (plain "pre") (SE " "%char :: plain "fix.h"), []) ].
 Example C11_nonvacuous :
   safe C11_example = true /\
   lists_of (parse_args C11_example)
@@ -137,5 +155,8 @@ Example C11_nonvacuous :
   closed (firstn 5 C11_example) = true /\
   existsb (fun e => if list_eq_dec string_dec e ["-cxx-isystem"; "/opt/inc"] then true else false) c11_catalogue = true /\
   Nat.leb 150 (length c11_catalogue) = true /\
-  split_string (quote_join C11_example) = inr C11_example.
+  split_string (quote_join C11_example) = inr C11_example /\
+  cmd_ok C11_example_rendering = true /\
+  map string_of_list (map (fun ws => value_word (fst ws)) C11_example_rendering)
+    = ["gcc"; "-DMSG=""a b"""; "-I../x y"; "-include"; "pre fix.h"].
 Proof. vm_compute. repeat split. Qed.
